@@ -7,7 +7,10 @@ From VQ Require Import Glue.Pin_pat_vq_forward Glue.Pin_pat_vq_split Glue.Pin_pa
 From VQ Require Import Model.Einops Glue.EinopsGlueBase Glue.EinopsGlueHeads Glue.EinopsGlueLayout Glue.EinopsGlueScalar.
 From VQ Require Import Proofs.EinopsProofs.
 From VQ Require Import Glue.EinopsGlueMore.
+From VQ Require Import Glue.Pin_fp_C10.
 Import ListNotations.
+
+(* implicit *)
 
 (* implicit *)
 
@@ -509,3 +512,8 @@ Theorem C10_src_lq_merge_both_sites :
        find_role pr_more.pr_more "LatentQuantize.forward:codes" "rearrange" 1.
 Proof. exact (@EinopsGlueMore.einops_lq_merge2). Qed.
 Print Assumptions C10_src_lq_merge_both_sites.
+
+Theorem C10_tie_source_footprint :
+  fp_C10.fp_C10 = pinned_fp_C10.
+Proof. exact (@Pin_fp_C10.pin_fp_C10). Qed.
+Print Assumptions C10_tie_source_footprint.
